@@ -46,6 +46,7 @@ CONFIGS = [
     {'engine': 'featured', 'ring': 5}, {'engine': 'fast'}, {'engine': 'fast', 'ring': 5}, {'engine': 'native'},
     {'engine': 'native', 'ring': 5}, {'engine': 'native', 'no_flat': True}, {'engine': 'native', 'no_flat': True, 'ring': 3},
     {'engine': 'native', 'flat_max_words': 5}, {'engine': 'native', 'measure': True},
+    {'engine': 'native', 'ring': 0}, {'engine': 'fast', 'ring': 0}, {'engine': 'native', 'no_flat': True, 'ring': 0},   # (a ring of length 0 is a ring)
 ]
 
 
